@@ -537,3 +537,41 @@ def replay(ctx, data):
     measure(pt)
     direct(ctx, pt)
     return len(ctx.violations) > before
+
+
+# =========================================================================================== known-finding witnesses
+
+_U = {"epsilon": 1.0, "delta": 0.0, "sensitivity": 1.0, "lower": 0.0, "upper": 1.0}
+_INF = dict(_U, upper=math.inf)
+WITNESS_INPUTS = {
+    "C19:LaplaceTruncated:value-outside-domain": ("LaplaceTruncated", _U, 3.0),
+    "C19:LaplaceFolded:value-outside-domain": ("LaplaceFolded", _U, 3.0),
+    "C19:LaplaceBoundedDomain:value-outside-domain": ("LaplaceBoundedDomain", _U, 3.0),
+    "C19:LaplaceTruncated:nan-infinite-bound": ("LaplaceTruncated", _INF, 0.5),
+    "C19:LaplaceBoundedDomain:nan-infinite-bound": ("LaplaceBoundedDomain", _INF, 0.5),
+    "C19:LaplaceFolded:nan-infinite-bound": ("LaplaceFolded", dict(_U, lower=-math.inf, upper=1.0), 0.5),
+    "C19:LaplaceTruncated:float-cancellation": (
+        "LaplaceTruncated", {"epsilon": 0.01, "delta": 0.2501024665196015, "sensitivity": 1e6, "lower": -0.0005,
+                             "upper": 0.0005}, -0.00049),
+    "C19:LaplaceBoundedDomain:float-cancellation": (
+        "LaplaceBoundedDomain", {"epsilon": 1.0, "delta": 0.0, "sensitivity": 1.0, "lower": 1e7, "upper": 1e7 + 10}, 1e7 + 3),
+    # regression witnesses of defects fixed in /repo (21336e0): no longer expected to fail
+    "C19:LaplaceFolded:nan-overflow": ("LaplaceFolded", dict(_U, upper=1000.0), 1.0),
+    "C19:LaplaceFolded:nan-zero-sensitivity": ("LaplaceFolded", dict(_U, sensitivity=0.0), 0.5),
+}
+
+
+def _witness(sig):
+    def w(ctx):
+        from .. import core
+        mech, p, v = WITNESS_INPUTS[sig]
+        pt = Pt(mech, dict(p), v)
+        measure(pt)
+        c2 = core.Ctx("C19", "quick", 0)
+        direct(c2, pt)
+        hits = [x for x in c2.violations if x["signature"] == sig]
+        return bool(hits), (hits[0]["what"] if hits else f"{mech}({p}) at value {v}: no longer fails")
+    return w
+
+
+WITNESSES = {sig: _witness(sig) for sig in WITNESS_INPUTS}
